@@ -5,7 +5,7 @@ from lib.common import Broken, Violation, verdict, save_replay
 
 PROPS = {
     "C27": {
-        "text": "ProxyFanout.tla models one produce/fetch through the proxy (grouping by the routing table, connectForAddr with owner/round-robin/exclusion, per-(attempt, backend) outcomes: per-partition codes, unreachable backend, connection lost after the send, undecodable reply; NOT_LEADER invalidation and re-grouping, fetch transport retries, merge, final fill-in). TLC checks the four C27 clauses exhaustively (3 partitions over 2 topics, 2-3 backends, bounded faults); TLC-generated request/fault scripts (simulation + counterexamples of the three named wrong designs) are replayed through the real handleProduceRouting/handleFetchRouting against scripted loopback TCP brokers with a real PartitionRouter on embedded etcd, and the recorded traces (broker receive logs + decoded client reply) are validated by TLC: C27 predicates on observed values (layer O) and conformance with the model (layer C).",
+        "text": "ProxyFanout.tla models one produce/fetch through the proxy (grouping by the routing table, connectForAddr with owner/round-robin/exclusion, per-(attempt, backend) outcomes: per-partition codes, unreachable backend, connection lost after the send, undecodable reply; NOT_LEADER invalidation and re-grouping, fetch transport retries, merge, final fill-in). TLC checks the four C27 clauses exhaustively (3 partitions over 2 topics, 2-3 backends, bounded faults); TLC-generated request/fault scripts (simulation + counterexamples of the three named wrong designs) are replayed through the real handleProduceRouting/handleFetchRouting against scripted loopback TCP brokers with a real PartitionRouter (table written in place, real LookupOwner/Invalidate), and the recorded traces (broker receive logs + decoded client reply) are validated by TLC: C27 predicates on observed values (layer O) and conformance with the model (layer C).",
         "note": "Trusted: TLC, franz-go kmsg as codec, the harness's fake brokers (they log a sub-request before answering it) and its decoding of the reply into [partition, code] entries. Brokers answer every partition they were sent (a broker reply that itself omits partitions is outside the quantifier). A record counts as possibly written whenever a broker received it and did not answer NOT_LEADER. Backends are up or down for the whole request; acks=0 and unparseable requests (raw forwarding) are not covered. Go map iteration order and the round-robin counter are left nondeterministic in the model and resolved from the trace.",
         "technique": "TLA+ model (ProxyFanout.tla) + TLC exhaustive check + replay of TLC behaviours into the real proxy handlers over loopback TCP + TLC trace validation (observation and conformance layers)",
     }
@@ -242,7 +242,7 @@ def check(ctx, prop):
     if not quick:
         ac = {k: v[1] for k, v in mc.action_coverage().items()}
         cov["action_coverage"] = ac
-        dead = [a for a in ("Start", "ConnectGroup", "Exchange", "Merge", "Finish") if ac.get(a, 0) == 0]
+        dead = [a for a in ("StartAny", "ConnectAny", "ExchangeAny", "Merge", "Finish") if ac.get(a, 0) == 0]
         if dead:
             raise Broken("vacuous model run: actions never taken: %s" % dead)
     return verdict(ctx, violations, level, cov, [
